@@ -5,8 +5,8 @@ From NV Require Import Base.Result Base.Bytes Base.PyPrims Model.Addr Proofs.Add
 Import ListNotations.
 Open Scope Z_scope.
 
-Definition reach (ops : list op) (sd : side) : ctl := get_side (exec ops) sd.
-Lemma reach_wf ops sd : wf (reach ops sd).
+Definition reach (blk : bool) (ops : list op) (sd : side) : ctl := get_side (exec blk ops) sd.
+Lemma reach_wf blk ops sd : wf (reach blk ops sd).
 Proof. apply wf2_side, exec_wf2. Qed.
 
 (* the documented outcome of bind(): [bind_outcome c i s arg c' r] *)
@@ -38,21 +38,21 @@ Definition bind_outcome (c : ctl) (i : nat) (s : sock) (arg : bindarg) (c' : ctl
   | BBad => r = Err (LlcpError EFAULT) /\ c' = c
   end.
 
-Theorem bind_ranges_all ops sd i s arg c' r :
-  get_sock (reach ops sd) i = Some s -> s_addr s = None -> do_bind (reach ops sd) i arg = (c', r) ->
-  bind_outcome (reach ops sd) i s arg c' r.
-Proof. intros G A D. exact (bind_spec _ _ _ _ _ _ (reach_wf ops sd) G A D). Qed.
+Theorem bind_ranges_all blk ops sd i s arg c' r :
+  get_sock (reach blk ops sd) i = Some s -> s_addr s = None -> do_bind (reach blk ops sd) i arg = (c', r) ->
+  bind_outcome (reach blk ops sd) i s arg c' r.
+Proof. intros G A D. exact (bind_spec _ _ _ _ _ _ (reach_wf blk ops sd) G A D). Qed.
 
-Theorem bind_errno_all ops sd i s arg c' e :
-  get_sock (reach ops sd) i = Some s -> s_addr s = None -> do_bind (reach ops sd) i arg = (c', Err e) ->
+Theorem bind_errno_all blk ops sd i s arg c' e :
+  get_sock (reach blk ops sd) i = Some s -> s_addr s = None -> do_bind (reach blk ops sd) i arg = (c', Err e) ->
   (exists x, e = LlcpError x /\ documented x) \/
-  (exists n, arg = BName n /\ name_valid n = true /\ name_addr (reach ops sd) n = None /\ wks n = None /\
-             none_free (reach ops sd) 16 32 /\ e = LlcpError EADDRNOTAVAIL).
-Proof. intros G A D. exact (bind_errno _ _ _ _ _ _ (reach_wf ops sd) G A D). Qed.
+  (exists n, arg = BName n /\ name_valid n = true /\ name_addr (reach blk ops sd) n = None /\ wks n = None /\
+             none_free (reach blk ops sd) 16 32 /\ e = LlcpError EADDRNOTAVAIL).
+Proof. intros G A D. exact (bind_errno _ _ _ _ _ _ (reach_wf blk ops sd) G A D). Qed.
 
 (* a bound socket cannot be bound again *)
-Theorem bind_twice_all ops sd i s a arg : get_sock (reach ops sd) i = Some s -> s_addr s = Some a ->
-  do_bind (reach ops sd) i arg = (reach ops sd, Err (LlcpError EINVAL)).
+Theorem bind_twice_all blk ops sd i s a arg : get_sock (reach blk ops sd) i = Some s -> s_addr s = Some a ->
+  do_bind (reach blk ops sd) i arg = (reach blk ops sd, Err (LlcpError EINVAL)).
 Proof. intros G A. unfold do_bind. rewrite G, A. reflexivity. Qed.
 
 (* the undocumented errno is reachable: 16 named binds, then a 17th name *)
@@ -61,59 +61,59 @@ Definition sixteen_named : list op :=
   flat_map (fun k => [XLoc SA (LSocket TLdl); XLoc SA (LBind (Z.to_nat k) (BName (nm k)))]) (zrange 0 16)
   ++ [XLoc SA (LSocket TLdl)].
 Theorem bind_errno_undocumented :
-  exists ops sd i s n, get_sock (reach ops sd) i = Some s /\ s_addr s = None /\ name_valid n = true /\
-    snd (do_bind (reach ops sd) i (BName n)) = Err (LlcpError EADDRNOTAVAIL) /\ ~ documented EADDRNOTAVAIL.
+  exists blk ops sd i s n, get_sock (reach blk ops sd) i = Some s /\ s_addr s = None /\ name_valid n = true /\
+    snd (do_bind (reach blk ops sd) i (BName n)) = Err (LlcpError EADDRNOTAVAIL) /\ ~ documented EADDRNOTAVAIL.
 Proof.
-  exists sixteen_named, SA, 16%nat, (new_sock TLdl), (nm 16).
+  exists true, sixteen_named, SA, 16%nat, (new_sock TLdl), (nm 16).
   split; [vm_compute; reflexivity|]. split; [reflexivity|]. split; [vm_compute; reflexivity|].
   split; [vm_compute; reflexivity|]. unfold documented, EADDRNOTAVAIL, EADDRINUSE, EACCES, EFAULT, EAGAIN. lia.
 Qed.
 
-Theorem close_frees_all ops sd i s a c' r :
-  get_sock (reach ops sd) i = Some s -> s_addr s = Some a -> s_pend s = PdNone ->
-  bound_set (reach ops sd) a = [i] -> sock_close s <> None -> do_close (reach ops sd) i = (c', r) ->
+Theorem close_frees_all blk ops sd i s a c' r :
+  get_sock (reach blk ops sd) i = Some s -> s_addr s = Some a -> s_pend s = PdNone ->
+  bound_set (reach blk ops sd) a = [i] -> sock_close s <> None -> do_close (reach blk ops sd) i = (c', r) ->
   r = Ok OUnit /\ bound_set c' a = [] /\ is_free c' a = true /\ (forall n, name_addr c' n <> Some a) /\
-  (forall b, b <> a -> sap_get c' b = sap_get (reach ops sd) b) /\
-  (forall n b, b <> a -> (name_addr c' n = Some b <-> name_addr (reach ops sd) n = Some b)).
-Proof. intros G A P B SC D. exact (close_last _ _ _ _ _ _ (reach_wf ops sd) G A P B SC D). Qed.
+  (forall b, b <> a -> sap_get c' b = sap_get (reach blk ops sd) b) /\
+  (forall n b, b <> a -> (name_addr c' n = Some b <-> name_addr (reach blk ops sd) n = Some b)).
+Proof. intros G A P B SC D. exact (close_last _ _ _ _ _ _ (reach_wf blk ops sd) G A P B SC D). Qed.
 
-Theorem close_not_last_all ops sd i s a c' r l :
-  get_sock (reach ops sd) i = Some s -> s_addr s = Some a -> s_pend s = PdNone ->
-  bound_set (reach ops sd) a = l -> (exists j, j <> i /\ In j l) -> sock_close s <> None ->
-  do_close (reach ops sd) i = (c', r) ->
-  r = Ok OUnit /\ bound_set c' a = remove_id l i /\ bound_set c' a <> [] /\ c_snl c' = c_snl (reach ops sd).
-Proof. intros G A P B J SC D. exact (close_not_last _ _ _ _ _ _ _ (reach_wf ops sd) G A P B J SC D). Qed.
+Theorem close_not_last_all blk ops sd i s a c' r l :
+  get_sock (reach blk ops sd) i = Some s -> s_addr s = Some a -> s_pend s = PdNone ->
+  bound_set (reach blk ops sd) a = l -> (exists j, j <> i /\ In j l) -> sock_close s <> None ->
+  do_close (reach blk ops sd) i = (c', r) ->
+  r = Ok OUnit /\ bound_set c' a = remove_id l i /\ bound_set c' a <> [] /\ c_snl c' = c_snl (reach blk ops sd).
+Proof. intros G A P B J SC D. exact (close_not_last _ _ _ _ _ _ _ (reach_wf blk ops sd) G A P B J SC D). Qed.
 
-Theorem close_pending_all ops sd i s' a :
-  (exists s, get_sock (reach ops sd) i = Some s /\ evolves s s') -> s_addr s' = Some a -> s_recvq s' <> [] ->
-  bound_set (reach ops sd) a = [i] ->
-  let c' := fst (finish_close (reach ops sd) i s') in
+Theorem close_pending_all blk ops sd i s' a :
+  (exists s, get_sock (reach blk ops sd) i = Some s /\ evolves s s') -> s_addr s' = Some a -> s_recvq s' <> [] ->
+  bound_set (reach blk ops sd) a = [i] ->
+  let c' := fst (finish_close (reach blk ops sd) i s') in
   bound_set c' a = [] /\ is_free c' a = true /\ (forall n, name_addr c' n <> Some a) /\
-  (forall n b, b <> a -> (name_addr c' n = Some b <-> name_addr (reach ops sd) n = Some b)).
-Proof. intros E A Q B. exact (close_pending_completes _ _ _ _ (reach_wf ops sd) E A Q B). Qed.
+  (forall n b, b <> a -> (name_addr c' n = Some b <-> name_addr (reach blk ops sd) n = Some b)).
+Proof. intros E A Q B. exact (close_pending_completes _ _ _ _ (reach_wf blk ops sd) E A Q B). Qed.
 
-Theorem rebind_all ops sd j s n :
-  get_sock (reach ops sd) j = Some s -> s_addr s = None -> name_valid n = true -> wks n = None ->
-  name_addr (reach ops sd) n = None -> (exists a, 16 <= a < 32 /\ bound_set (reach ops sd) a = []) ->
-  exists a, least_free (reach ops sd) 16 32 a /\ snd (do_bind (reach ops sd) j (BName n)) = Ok OUnit /\
-            name_addr (fst (do_bind (reach ops sd) j (BName n))) n = Some a.
-Proof. intros G A V K L F. exact (rebind_after_close _ _ _ _ (reach_wf ops sd) G A V K L F). Qed.
+Theorem rebind_all blk ops sd j s n :
+  get_sock (reach blk ops sd) j = Some s -> s_addr s = None -> name_valid n = true -> wks n = None ->
+  name_addr (reach blk ops sd) n = None -> (exists a, 16 <= a < 32 /\ bound_set (reach blk ops sd) a = []) ->
+  exists a, least_free (reach blk ops sd) 16 32 a /\ snd (do_bind (reach blk ops sd) j (BName n)) = Ok OUnit /\
+            name_addr (fst (do_bind (reach blk ops sd) j (BName n))) n = Some a.
+Proof. intros G A V K L F. exact (rebind_after_close _ _ _ _ (reach_wf blk ops sd) G A V K L F). Qed.
 
-Theorem name_meaning_all ops sd n :
-  match name_addr (reach ops sd) n with
+Theorem name_meaning_all blk ops sd n :
+  match name_addr (reach blk ops sd) n with
   | Some a => (n = name_sdp /\ a = 1) \/
-              (2 <= a < 64 /\ bound_set (reach ops sd) a <> [] /\
-               forall i, In i (bound_set (reach ops sd) a) -> exists s, get_sock (reach ops sd) i = Some s /\ s_addr s = Some a /\
+              (2 <= a < 64 /\ bound_set (reach blk ops sd) a <> [] /\
+               forall i, In i (bound_set (reach blk ops sd) a) -> exists s, get_sock (reach blk ops sd) i = Some s /\ s_addr s = Some a /\
                  (s_bname s = Some n \/ (s_bname s = None /\ nolisten (s_state s))))
-  | None => forall a i s, In i (bound_set (reach ops sd) a) -> get_sock (reach ops sd) i = Some s -> s_bname s <> Some n
+  | None => forall a i s, In i (bound_set (reach blk ops sd) a) -> get_sock (reach blk ops sd) i = Some s -> s_bname s <> Some n
   end.
-Proof. exact (name_addr_meaning _ n (reach_wf ops sd)). Qed.
+Proof. exact (name_addr_meaning _ n (reach_wf blk ops sd)). Qed.
 
-Theorem sdreq_answer_all ops sd rq rs c' r : dispatch (reach ops sd) (PSnl rq rs) = (c', r) ->
-  sd_sdres c' = sd_sdres (reach ops sd) ++
-                map (fun x => (fst x, match name_addr (reach ops sd) (snd x) with Some a => a | None => 0 end)) rq /\
-  c_sap c' = c_sap (reach ops sd) /\ c_snl c' = c_snl (reach ops sd) /\ c_socks c' = c_socks (reach ops sd).
-Proof. intro D. exact (sdreq_answer _ _ _ _ _ (reach_wf ops sd) D). Qed.
+Theorem sdreq_answer_all blk ops sd rq rs c' r : dispatch (reach blk ops sd) (PSnl rq rs) = (c', r) ->
+  sd_sdres c' = sd_sdres (reach blk ops sd) ++
+                map (fun x => (fst x, match name_addr (reach blk ops sd) (snd x) with Some a => a | None => 0 end)) rq /\
+  c_sap c' = c_sap (reach blk ops sd) /\ c_snl c' = c_snl (reach blk ops sd) /\ c_socks c' = c_socks (reach blk ops sd).
+Proof. intro D. exact (sdreq_answer _ _ _ _ _ (reach_wf blk ops sd) D). Qed.
 
 Definition connect_by_name_outcome (c : ctl) (ssap : Z) (n : name) (c' : ctl) (r : res (list event)) : Prop :=
   match name_addr c n with
@@ -129,9 +129,9 @@ Definition connect_by_name_outcome (c : ctl) (ssap : Z) (n : name) (c' : ctl) (r
          r = Ok [] /\ c_socks c' = c_socks c /\
          exists l sl, sap_get c a = Sap l sl /\ sap_get c' a = Sap l (sl ++ [PDM ssap a 2]))))
   end.
-Theorem connect_by_name_all ops sd ssap n c' r : dispatch (reach ops sd) (PConnect 1 ssap (Some n)) = (c', r) ->
-  connect_by_name_outcome (reach ops sd) ssap n c' r.
-Proof. intro D. exact (connect_by_name _ _ _ _ _ (reach_wf ops sd) D). Qed.
+Theorem connect_by_name_all blk ops sd ssap n c' r : dispatch (reach blk ops sd) (PConnect 1 ssap (Some n)) = (c', r) ->
+  connect_by_name_outcome (reach blk ops sd) ssap n c' r.
+Proof. intro D. exact (connect_by_name _ _ _ _ _ (reach_wf blk ops sd) D). Qed.
 
 Definition datagram_outcome (c : ctl) (d sa : Z) (data : list Z) (c' : ctl) (r : res (list event)) : Prop :=
   r = Hang \/
@@ -143,33 +143,33 @@ Definition datagram_outcome (c : ctl) (d sa : Z) (data : list Z) (c' : ctl) (r :
        s_type sj <> TDlc /\ (s_peer sj = None \/ s_peer sj = Some sa) /\
        get_sock c' j = Some (set_recvq sj (s_recvq sj ++ [PUI d sa data])) /\
        forall k, k <> j -> get_sock c' k = get_sock c k)).
-Theorem datagram_dispatch_all ops sd d sa data c' r : dispatch (reach ops sd) (PUI d sa data) = (c', r) ->
-  datagram_outcome (reach ops sd) d sa data c' r.
-Proof. intro D. exact (datagram_dispatch _ _ _ _ _ _ (reach_wf ops sd) D). Qed.
+Theorem datagram_dispatch_all blk ops sd d sa data c' r : dispatch (reach blk ops sd) (PUI d sa data) = (c', r) ->
+  datagram_outcome (reach blk ops sd) d sa data c' r.
+Proof. intro D. exact (datagram_dispatch _ _ _ _ _ _ (reach_wf blk ops sd) D). Qed.
 
-Theorem datagram_sendto_all ops sd i s msg d c' : get_sock (reach ops sd) i = Some s -> s_type s = TLdl ->
-  do_sendto (reach ops sd) i msg d = (c', Ok (OBool true)) ->
+Theorem datagram_sendto_all blk ops sd i s msg d c' : get_sock (reach blk ops sd) i = Some s -> s_type s = TLdl ->
+  do_sendto (reach blk ops sd) i msg d = (c', Ok (OBool true)) ->
   exists s' a, get_sock c' i = Some s' /\ s_addr s' = Some a /\ (s_addr s = None \/ s_addr s = Some a) /\
                s_sendq s' = s_sendq s ++ [PUI d a msg] /\ s_recvq s' = s_recvq s /\
                (s_peer s = None \/ s_peer s = Some 0 \/ s_peer s = Some d) /\ len msg <= link_miu.
-Proof. intros G T D. exact (datagram_sendto _ _ _ _ _ _ (reach_wf ops sd) G T D). Qed.
+Proof. intros G T D. exact (datagram_sendto _ _ _ _ _ _ (reach_wf blk ops sd) G T D). Qed.
 
-Theorem collect_head_all ops sd a miu p c' : collect1 (reach ops sd) a miu = Some (p, c') ->
-  (exists i s s', In i (bound_set (reach ops sd) a) /\ get_sock (reach ops sd) i = Some s /\ s_addr s = Some a /\
+Theorem collect_head_all blk ops sd a miu p c' : collect1 (reach blk ops sd) a miu = Some (p, c') ->
+  (exists i s s', In i (bound_set (reach blk ops sd) a) /\ get_sock (reach blk ops sd) i = Some s /\ s_addr s = Some a /\
                   get_sock c' i = Some s' /\
                   (exists rest, s_sendq s = p :: rest /\ (s_sendq s' = rest \/ s_sendq s' = [])) /\
-                  forall k, k <> i -> get_sock c' k = get_sock (reach ops sd) k) \/
-  (exists l sl, sap_get (reach ops sd) a = Sap l (p :: sl) /\ sap_get c' a = Sap l sl /\ c_socks c' = c_socks (reach ops sd)) \/
-  (a = 1 /\ c_socks c' = c_socks (reach ops sd)).
-Proof. intro C. exact (collect_head _ _ _ _ _ (reach_wf ops sd) C). Qed.
+                  forall k, k <> i -> get_sock c' k = get_sock (reach blk ops sd) k) \/
+  (exists l sl, sap_get (reach blk ops sd) a = Sap l (p :: sl) /\ sap_get c' a = Sap l sl /\ c_socks c' = c_socks (reach blk ops sd)) \/
+  (a = 1 /\ c_socks c' = c_socks (reach blk ops sd)).
+Proof. intro C. exact (collect_head _ _ _ _ _ (reach_wf blk ops sd) C). Qed.
 
 (* in every reachable state: whatever waits in the receive queue of a datagram socket is a UI PDU addressed to the
    address the socket is bound to; whatever waits in its send queue is a UI PDU carrying that address as source *)
-Theorem datagram_queues_all ops sd i s p : get_sock (reach ops sd) i = Some s -> s_type s = TLdl ->
+Theorem datagram_queues_all blk ops sd i s p : get_sock (reach blk ops sd) i = Some s -> s_type s = TLdl ->
   (In p (s_recvq s) -> exists d sa data, p = PUI d sa data /\ s_addr s = Some d) /\
   (In p (s_sendq s) -> exists d data a, p = PUI d a data /\ s_addr s = Some a).
 Proof.
   intros G T. split; intro H.
-  - exact (wf_ldl_rq _ (reach_wf ops sd) i s p G T H).
-  - exact (wf_ldl_sq _ (reach_wf ops sd) i s p G T H).
+  - exact (wf_ldl_rq _ (reach_wf blk ops sd) i s p G T H).
+  - exact (wf_ldl_sq _ (reach_wf blk ops sd) i s p G T H).
 Qed.
